@@ -181,8 +181,9 @@ def replay(rec):
         v0, v1 = cex.get("v0", "2"), cex.get("v1", "2")
         for e in ("x' == 2.5", "x' == 2", f"x' == {v1}", f"{v0} == x'", "x <= 5 && x' == 3"):
             tries.append((dict(inv="{ " + e + " }"), "symbolic", e))
-    elif job == "c17_assign" or job == "c17_edge":
-        for e in ("x = 1.5", "i = 0, x = 1.5", "x = 1.5, i = 0"):
+    elif job in ("c17_assign", "c17_edge", "c17_assign_chain"):
+        for e in ("x = 1.5", "i = 0, x = 1.5", "x = 1.5, i = 0", "x = 1.5, i = 0, i = 1", "i = 0, x = 1.5, i = 1", "i = 0, i = 1, x = 1.5",
+                  "x = 1.5, i = 0, i = 1, i = 2", "i = 0, x = 1.5, i = 1, i = 2", "d = 0.5, i = 1, i = 2"):
             tries.append((dict(assign=e), "symbolic", e))
     elif job == "c17_variable":
         if "stochastic" in desc:
